@@ -58,8 +58,13 @@ def run(ctx) -> None:
     ctx.floor("R1", "_print_diff calls in update", len(pdc), 1)
     for c in pdc:
         r = upc.reach(ucfg.node_containing(c))
-        ctx.check("R1", BF.var("dry").implies(r.project(["dry"]) | ~BF.var("dry")) and (r & BF.var("dry")).project(["dry"]).equiv(BF.var("dry")),
-                  "update: the diff is printed whenever --dry is given", "cli.update: --dry does not always print the diff", r.to_dnf(4), loc=upd.loc(c))
+        # everything that gets as far as the announcement and runs with --dry must print the diff
+        from checks.c01 import _announce_sites
+        ann = [a for a in _announce_sites(ctx, upd)]
+        ctx.require(ann, "update: announcement site not found")
+        r_ann = upc.reach(ucfg.node_containing(ann[-1]))
+        ctx.check("R1", (r_ann & BF.var("dry")).implies(r), "update: the diff is printed whenever --dry is given", "cli.update: --dry does not always print the diff",
+                  f"diff printed when {r.project([a for a in r.atoms if a in ('dry', 'verbose >= 2')]).to_dnf()}", loc=upd.loc(c))
         shapes_ok = [unparse(a) for a in c.args] == ["cfg", "new_version"]
         ctx.check("R1", shapes_ok, "update: _print_diff(cfg, new_version) - same arguments as the real update", "cli.update: the diff is computed for other arguments than the real update", unparse(c), loc=upd.loc(c))
     for fq in ("cli._print_diff", "cli.get_diff", "v2rewrite.diff", "v1rewrite.diff"):
